@@ -272,6 +272,8 @@ var specialNums = []xexpr{
 	{k: xNum, value: 123456789012, s: "123456789012"}, {k: xNum, value: 9007199254740992, s: "9007199254740992"},
 	{k: xNum, value: 0xFFFFFFFFFFFF, s: "281474976710655", smw: "0xffffffffffff"}, {k: xNum, value: 0xFFFFFFFFFFFFF, s: "4503599627370495", smw: "0xfffffffffffff"},
 	{k: xNum, value: 0xABCDEF012345E, s: "3022415463593054", smw: "0xabcdef012345e"},
+	// minify-whitespace strips the zero in front of the decimal point: the text starts with "."
+	{k: xNum, value: 0.5, s: "0.5", smw: ".5"}, {k: xNum, value: 0.25, s: "0.25", smw: ".25"}, {k: xNum, value: 0.05, s: "0.05", smw: ".05"}, {k: xNum, value: 0.001, s: "1e-3", smw: ".001"},
 }
 
 func genNum(r *Rng) *xexpr {
@@ -501,6 +503,9 @@ func gluingGrid() []*xexpr {
 		ng := *pos
 		ng.neg = true
 		neg := &ng
+		out = append(out, cond(id("a"), pos, id("b")), cond(id("a"), pos, pos), cond(dot(id("a"), "b"), dot(pos, "e"), neg), cond(un(js_ast.UnOpPostInc, id("a")), pos, pos), bin(js_ast.BinOpNullishCoalescing, id("a"), pos),
+			bin(js_ast.BinOpAssign, id("a"), pos), bin(js_ast.BinOpLt, id("a"), pos), bin(js_ast.BinOpGt, un(js_ast.UnOpPostDec, id("a")), pos), bin(js_ast.BinOpAdd, pos, pos), bin(js_ast.BinOpInstanceof, id("a"), pos), un(js_ast.UnOpVoid, pos), un(opAwait, pos), un(opYield, pos),
+			call(id("f"), pos, pos), nw(id("f"), pos), idx(id("a"), pos))
 		out = append(out, pos, dot(pos, "e"), dot(pos, "x1"), dot(dot(pos, "e"), "e"), idx(pos, pos), call(pos, pos), nw(pos, pos), call(dot(pos, "toString")), cond(pos, pos, pos),
 			dot(neg, "e"), bin(js_ast.BinOpPow, neg, pos), bin(js_ast.BinOpSub, pos, neg), bin(js_ast.BinOpIn, pos, id("a")), bin(js_ast.BinOpIn, id("a"), pos), bin(js_ast.BinOpInstanceof, dot(pos, "e"), pos),
 			un(js_ast.UnOpTypeof, pos), un(js_ast.UnOpNeg, pos), un(js_ast.UnOpPreDec, dot(pos, "e")), un(js_ast.UnOpPostInc, dot(pos, "e")), bin(js_ast.BinOpAdd, pos, dot(pos, "e")),
